@@ -260,13 +260,18 @@ func c08(c *Ctx) {
 					return false
 				}
 				ie, ok := resolve(be.Y).(*ast.IndexExpr)
-				if !ok || !underRep(ie.X) || !sameVar(info, ie.Index, k) {
+				// the map may be read through a local that stands for the field (prev := s.reported)
+				if !ok {
+					return false
+				}
+				mx := resolve(ie.X)
+				if !underRep(mx) || !sameVar(info, ie.Index, k) {
 					return false
 				}
 				if _, isMap := info.TypeOf(ie.X).Underlying().(*types.Map); !isMap {
 					return false
 				}
-				if p := pathKey(info, ie.X); p != "" {
+				if p := pathKey(info, mx); p != "" {
 					repPath = p
 				}
 				return true
@@ -676,8 +681,16 @@ func ruleBuilderWiring(c *Ctx, mx *PkgIndex, rule string, fields []string) {
 				return cf != nil && cf.Name() == "aggregateFunc"
 			})
 			x := g.NodeOf(st.N)
+			// … or is skipped only when the look-up's own ok result is false (the value is the zero value then), as in a helper
+			seen, _ := g.ReachFromEntry(func(y *GNode) bool { return y == x }, func(ed *GEdge) bool {
+				if !tupleGuarded[fld] || ed.Cond == nil || ed.Pol > 0 {
+					return false
+				}
+				_, isB := objOf(info, ed.Cond).(*types.Var)
+				return isB
+			})
 			for _, u := range uses {
-				if d, _ := g.DominatedByNodes(u, map[*GNode]bool{x: true}); !d {
+				if x == nil || seen[u] {
 					good = false
 				}
 			}
